@@ -225,6 +225,62 @@ fn two_pass_raw(c: &CheckCase, sols: Vec<Solution>) -> Result<(u64, SolutionSet)
     )
 }
 
+/// verdict with per-solution sorted mutations; `with_gas`: include the gas
+fn summary(r: Result<(u64, SolutionSet), PredicatesError<StErr>>, with_gas: bool) -> String {
+    match r {
+        Ok((gas, set)) => {
+            let sols: Vec<String> = set
+                .solutions
+                .iter()
+                .map(|s| {
+                    let mut ms: Vec<String> =
+                        s.state_mutations.iter().map(|m| format!("{}->{}", show_words(&m.key), show_words(&m.value))).collect();
+                    ms.sort();
+                    format!("[{}]", ms.join(","))
+                })
+                .collect();
+            if with_gas {
+                format!("ok {} {}", gas, sols.join(" "))
+            } else {
+                format!("ok {}", sols.join(" "))
+            }
+        }
+        Err(PredicatesError::Failed(errs)) => {
+            let all_unsat = errs.0.iter().all(|(_, e)| matches!(e, PredicateError::ConstraintsUnsatisfied(_)));
+            let all_invalid = errs.0.iter().all(|(_, e)| matches!(e, PredicateError::InvalidNodeEdges(_)));
+            if all_unsat {
+                let items: Vec<String> = errs
+                    .0
+                    .iter()
+                    .map(|(i, e)| match e {
+                        PredicateError::ConstraintsUnsatisfied(u) => {
+                            let mut v = u.0.clone();
+                            v.sort();
+                            format!("{}:{}", i, v.iter().map(|x| x.to_string()).collect::<Vec<_>>().join(","))
+                        }
+                        _ => unreachable!(),
+                    })
+                    .collect();
+                format!("unsat {}", items.join(";"))
+            } else if all_invalid {
+                "invalid".into()
+            } else {
+                "err".into()
+            }
+        }
+        Err(_) => "err".into(),
+    }
+}
+
+pub fn ref_oracle(c: &CheckCase, exp: &str) -> String {
+    let got = summary(two_pass_raw(c, c.sols.clone()), false);
+    if got == exp {
+        "ok".into()
+    } else {
+        format!("FAIL got `{}` but the reference semantics gives `{}`", got, exp)
+    }
+}
+
 /// C04: content address, set validation and two-pass result of a set and of a reordering of it
 pub fn perm_oracle(c: &CheckCase, perm: &[usize]) -> String {
     let n = c.sols.len();
@@ -320,6 +376,46 @@ pub fn run(fam: &str, t: &mut Toks) -> Option<R<String>> {
                     p.join(" ")
                 };
                 Ok(if strip(&got) == strip(&exp) { "ok".into() } else { format!("FAIL got `{}` expected `{}`", got, exp) })
+            }
+            "o_ref" => {
+                // C01: expectation computed by the generator's reference semantics of the predicate graph
+                let exp = String::from_utf8(t.bytes()?).map_err(|e| e.to_string())?;
+                let fam = t.tok()?;
+                if fam != "twopass" {
+                    return Err("o_ref family".into());
+                }
+                let c = p_check_case(t)?;
+                t.done()?;
+                Ok(ref_oracle(&c, &exp))
+            }
+            "o_same" => {
+                // C01: the same graph under several numberings: same verdict, gas and (sorted) data outputs
+                let k = t.nat()?;
+                let mut firsts: Option<String> = None;
+                for _ in 0..k {
+                    if t.tok()? != "twopass" {
+                        return Err("o_same family".into());
+                    }
+                    let c = p_check_case(t)?;
+                    let mut s = summary(two_pass_raw(&c, c.sols.clone()), true);
+                    if s.starts_with("unsat ") {
+                        // node indices follow the numbering (o_ref checks them per numbering): compare how many per solution
+                        s = format!(
+                            "unsat {}",
+                            s[6..].split(';').map(|e| {
+                                let (i, l) = e.split_once(':').unwrap_or((e, ""));
+                                format!("{}:#{}", i, l.split(',').count())
+                            }).collect::<Vec<_>>().join(";")
+                        );
+                    }
+                    match &firsts {
+                        None => firsts = Some(s),
+                        Some(f) if *f != s => return Ok(format!("FAIL numberings disagree: `{}` vs `{}`", f, s)),
+                        _ => {}
+                    }
+                }
+                t.done()?;
+                Ok("ok".into())
             }
             "o_perm" => {
                 // C04: the same set with its solutions reordered: perm[j] = index (in the given order) of the solution placed at j
